@@ -40,6 +40,10 @@ def raw_snapshot(bsp: BSP) -> dict:
     return snap
 
 
+class _Empty(bytes):
+    """An empty bytes object with its own identity."""
+
+
 class Tracer:
     """Event log of one BSP object: ['get', view, hit] / ['parsed', view] / ['set', view] / ['pop', view] /
     ['write', view, [lumps changed]].  Installed by patching class attributes; `uninstall` restores them."""
@@ -98,6 +102,13 @@ class Tracer:
             if not tracer.on:
                 return func(bsp, data)
             tracer.events.append(['pop', view])
+            # b'' is a singleton: give every empty lump its own (equal) empty bytes object for the duration of
+            # the writer, so that 'the writer assigned b"" to an empty lump' is visible as an assignment
+            marks = []
+            for holder in list(bsp.lumps.values()) + list(bsp.game_lumps.values()):
+                if type(holder.data) is bytes and not holder.data:
+                    holder.data = _Empty()
+                    marks.append(holder)
             before = raw_snapshot(bsp)
             tracer.stack.append(set())
             try:
@@ -106,7 +117,10 @@ class Tracer:
                     res = b''.join(res)
             finally:
                 tracer.stack.pop()
-            after = raw_snapshot(bsp)
+                after = raw_snapshot(bsp)
+                for holder in marks:
+                    if type(holder.data) is _Empty:
+                        holder.data = b''
             # lumps emptied because a view was parsed inside the writer are that parse's effect, not a write
             start = len(tracer.events) - 1
             while tracer.events[start] != ['pop', view]:
@@ -187,6 +201,7 @@ def measure(path: str, tracer: Tracer, scratch: str) -> dict:
     write_deps = {v: set() for v in VIEWS}
     write_sets = {v: set() for v in VIEWS}
     bsp = BSP(path)
+    raw0 = raw_snapshot(bsp)
     with tracer.recording():
         for v in VIEWS:
             getattr(bsp, v)
@@ -204,13 +219,23 @@ def measure(path: str, tracer: Tracer, scratch: str) -> dict:
     for k, s in ws.items():
         write_sets[k] |= s
     lumps = sorted({l for v in VIEWS for l in CLEARS[v]} | {l for s in write_sets.values() for l in s} | {'OTHER'})
+    empty = sorted(k for k, v in raw0.items() if not v and k in lumps)
     return {
-        'views': sorted(VIEWS), 'order': ORDER, 'unordered': UNORDERED, 'lumps': lumps,
+        'views': sorted(VIEWS), 'order': ORDER, 'unordered': UNORDERED, 'lumps': lumps, 'emptyLumps': empty,
         'main': MAIN, 'clears': CLEARS,
         'readDeps': {v: sorted(read_deps[v]) for v in VIEWS},
         'writeDeps': {v: sorted(write_deps[v]) for v in VIEWS},
         'writeSets': {v: sorted(write_sets[v] - {MAIN[v]}) for v in VIEWS},
     }
+
+
+def stub_constants() -> dict:
+    """Constants for a file the code under test could not be measured on (every scenario on it is
+    reported as failed; the static part keeps the specification well-formed)."""
+    lumps = sorted({l for v in VIEWS for l in CLEARS[v]} | {'OTHER'})
+    none = {v: [] for v in VIEWS}
+    return {'views': sorted(VIEWS), 'order': ORDER, 'unordered': UNORDERED, 'lumps': lumps, 'emptyLumps': [],
+            'main': MAIN, 'clears': CLEARS, 'readDeps': none, 'writeDeps': none, 'writeSets': none, 'stub': True}
 
 
 # ------------------------------------------------------------------ projection
